@@ -42,6 +42,16 @@ Check (C03_eq_implies_same_get_hash : forall H b1 b2,
   key_eq (m_key (construct H b1)) (m_key (construct H b2)) = true ->
   fst (get_hash H (construct H b1)) = fst (get_hash H (construct H b2))).
 Print Assumptions C03_eq_implies_same_get_hash.
+Check (C03_observations_ignore_memo_and_construction : forall H b1 b2 os1 os2,
+  key_cmp (m_key (built H b1 os1)) (m_key (built H b2 os2)) = key_cmp (logical_key b1) (logical_key b2)
+  /\ key_eq (m_key (built H b1 os1)) (m_key (built H b2 os2)) = key_eq (logical_key b1) (logical_key b2)
+  /\ hash_feed (m_key (built H b1 os1)) = hash_feed (logical_key b1)).
+Print Assumptions C03_observations_ignore_memo_and_construction.
+Check (C03_twins_compare_alike : forall H b1 b1' b2 b2' os1 os1' os2 os2',
+  logical_key b1 = logical_key b1' -> logical_key b2 = logical_key b2' ->
+  key_cmp (m_key (built H b1 os1)) (m_key (built H b2 os2)) = key_cmp (m_key (built H b1' os1')) (m_key (built H b2' os2'))
+  /\ key_eq (m_key (built H b1 os1)) (m_key (built H b2 os2)) = key_eq (m_key (built H b1' os1')) (m_key (built H b2' os2'))).
+Print Assumptions C03_twins_compare_alike.
 Check (C03_sort_is_the_stable_sort : forall ls,
   StronglySorted le_name (sort_by_name ls) /\
   Permutation (sort_by_name ls) ls /\
@@ -52,7 +62,9 @@ Print Assumptions C03_sort_is_the_stable_sort.
 Check (C03_spec_ok_on_model : forall c, spec_ok c (run_case c) = true).
 Print Assumptions C03_spec_ok_on_model.
 Check (C03_spec_ok_sound : forall c o, spec_ok c o = true ->
-  exists ks e cm, o = OOk ks e cm true /\
+  exists ks e cm xe xc, o = OOk ks e cm true xe xc /\
+  length xe = n_extra /\ length xc = n_extra /\
+  Forall (fun m => m = e) xe /\ Forall (fun m => m = cm) xc /\
   let keys := map logical_key c in
   forall i j, (i < length c)%nat -> (j < length c)%nat ->
     let a := nth i keys dkey in
